@@ -350,6 +350,8 @@ def r18_12(prog, rep, rule="R18.12"):
 
     def reads_dict(term, depth=0):
         """the closure / function `term` (or one it calls on the instance) reads vars(val) or val.__dict__"""
+        if T.is_call_to(term, "functools.partial") and term[2]:
+            return reads_dict(term[2][0], depth)  # partial(_iterboth, names): the function handed out is _iterboth
         if term[0] == "closure":
             name = term[1].rsplit(".", 1)[-1]
             try:
